@@ -1,6 +1,6 @@
 #!/bin/bash
 # usage: tools/seedsweep.sh [name-glob]   Re-runs, for every stored seeded change, the quick tier of each check that its meta.json lists
-# as having reported it (rc=1) against a scratch worktree with the change applied, and reports any that no longer does.
+# as having reported it (rc=1; ONLY="C02 C07" restricts the checks) against a scratch worktree with the change applied, and reports any that no longer does.
 set -u
 cd /verif
 glob="${1:-*}"
@@ -8,6 +8,7 @@ bad=0; n=0
 for d in seeded/$glob/; do
   name=$(basename "$d")
   ids=$(python3 -c "import json,sys; m=json.load(open('$d/meta.json')); print(' '.join(k for k,v in m.get('checks_run_quick_tier',{}).items() if v=='rc=1'))")
+  if [ -n "${ONLY:-}" ]; then ids=$(for i in $ids; do case " $ONLY " in *" $i "*) echo -n "$i ";; esac; done); fi   # ONLY="C02 C07": just these checks
   [ -n "$ids" ] || { echo "SKIP $name: no detecting check recorded"; continue; }
   wt=/tmp/sweep-$name
   git -C /repo worktree add -q --detach "$wt" HEAD || exit 2
